@@ -7,7 +7,8 @@
 using namespace Vector::BLF;
 extern "C" size_t LLVMFuzzerMutate(uint8_t * data, size_t size, size_t maxsize);
 static std::string g_path;
-extern "C" int LLVMFuzzerInitialize(int *, char ***) { g_new_cap = 256u << 20; const char * t = getenv("VERIF_TMP"); g_path = std::string(t ? t : "/dev/shm") + "/fz." + std::to_string(getpid()) + ".blf"; return 0; }
+struct CapScope { CapScope() { g_new_cap = 256u << 20; } ~CapScope() { g_new_cap = 0; } };
+extern "C" int LLVMFuzzerInitialize(int *, char ***) { const char * t = getenv("VERIF_TMP"); g_path = std::string(t ? t : "/dev/shm") + "/fz." + std::to_string(getpid()) + ".blf"; return 0; }
 extern "C" size_t LLVMFuzzerCustomMutator(uint8_t * data, size_t size, size_t maxsize, unsigned int seed) {
     twin::Bytes f(data, data + size), stream;
     bool parsed = false;
@@ -26,6 +27,7 @@ extern "C" size_t LLVMFuzzerCustomMutator(uint8_t * data, size_t size, size_t ma
     return LLVMFuzzerMutate(data, size, maxsize);
 }
 extern "C" int LLVMFuzzerTestOneInput(const uint8_t * data, size_t size) {
+    CapScope cap;
     { twin::Bytes b(data, data + size); twin::save(g_path, b); }
     long limit = 64 * (long)size + 4096;
     try {
